@@ -42,6 +42,13 @@ func (xtalkComp) Exec(op string) (string, string, string, bool) {
 	for i := range jobs {
 		jobs[i] = job{n: 1 + r.Intn(200000), part: []int{0, 1000, 4096, 32768}[r.Intn(4)], seed: r.Next(), pause: time.Duration(r.Intn(30)) * time.Millisecond}
 	}
+	if k > 50 {
+		// many connections at once: all of them are open before the first one finishes (everyone waits for the last dial)
+		for i := range jobs {
+			jobs[i].n = 1 + r.Intn(20000)
+			jobs[i].pause = 0
+		}
+	}
 	dl := 30 * time.Second
 	if f[0] == "dns" {
 		for i := range jobs {
@@ -50,7 +57,10 @@ func (xtalkComp) Exec(op string) (string, string, string, bool) {
 		dl = 120 * time.Second
 	}
 	errs := make([]string, k)
-	var wg sync.WaitGroup
+	var wg, opened sync.WaitGroup
+	if k > 50 {
+		opened.Add(k)
+	}
 	for i := range jobs {
 		wg.Add(1)
 		go func(i int) {
@@ -62,6 +72,22 @@ func (xtalkComp) Exec(op string) (string, string, string, bool) {
 				return
 			}
 			defer c.Close()
+			if k > 50 {
+				// prove the connection exists end to end, then wait until all k are open
+				one := []byte{byte(i)}
+				if _, err := c.Write(one); err != nil {
+					errs[i] = "first byte: " + err.Error()
+					opened.Done()
+					return
+				}
+				if got, err := readFullDeadline(c, 1, dl); err != nil || got[0] != one[0] {
+					errs[i] = fmt.Sprintf("connection %d: first byte not echoed: %v", i, err)
+					opened.Done()
+					return
+				}
+				opened.Done()
+				opened.Wait()
+			}
 			time.Sleep(j.pause)
 			data := payload(j.seed, j.n)
 			werr := make(chan error, 1)
@@ -93,6 +119,7 @@ func (xtalkComp) Exec(op string) (string, string, string, bool) {
 }
 
 func (xtalkComp) Gen(r *Rand, tier string, emit func(string)) {
+	emit(fmt.Sprintf("tcp 160 %d", r.Next()%1000)) // far more logical connections at once than the usual handful
 	emit(fmt.Sprintf("tcp 3 %d", r.Next()%1000))
 	emit(fmt.Sprintf("ws 3 %d", r.Next()%1000))
 	emit(fmt.Sprintf("stdio 2 %d", r.Next()%1000))
